@@ -130,3 +130,16 @@ package keeper
 //@   ensures #c07-never-more-than-offered: result1 == nil ==> result0.OfferCoin.Amount + feeOf(rate, result0.OfferCoin.Amount) <= msg.OfferCoin.Amount && result0.OfferCoin.Denom == d
 //@   ensures #c07-order-starts-unspent: result1 == nil ==> result0.RemainingOfferCoin == result0.OfferCoin && result0.ReceivedCoin.Amount == 0 && result0.Orderer == msg.Orderer && result0.AppId == msg.AppId && result0.PairId == msg.PairId
 //@   ensures #c07-order-stored: result1 == nil ==> k.GetOrder(ctx, msg.AppId, msg.PairId, result0.Id).1 && k.GetOrder(ctx, msg.AppId, msg.PairId, result0.Id).0 == result0
+
+// Cancel-all, per-order step (C07): the step never asks the iteration over the orderer's orders to stop (so every order is
+// visited, in every pair), and an order that is selected (no pair filter, or its pair is in the filter), not yet cancelled
+// and not in its placement batch is finished as Canceled - refunded through FinishOrder - before the step returns.
+//@ func (k Keeper) CancelAllOrders$1
+//@   property C07
+//@   let O = order
+//@   let pr = k.GetPair(ctx, msg.AppId, order.PairId).0
+//@   requires #order-stored: k.GetOrder(ctx, order.AppId, order.PairId, order.Id).1 && k.GetOrder(ctx, order.AppId, order.PairId, order.Id).0 == order && order.AppId == msg.AppId
+//@   requires #order-shape: order.RemainingOfferCoin.Denom == order.OfferCoin.Denom && order.RemainingOfferCoin.Amount >= 0 && order.RemainingOfferCoin.Amount <= order.OfferCoin.Amount
+//@   requires #params: k.GetGenericLiquidityParams(ctx, order.AppId).1 && k.GetGenericLiquidityParams(ctx, order.AppId).0.SwapFeeRate >= 0 && k.GetGenericLiquidityParams(ctx, order.AppId).0.SwapFeeRate <= ONE
+//@   requires #accounts: addr(pr.EscrowAddress) != addr(pr.SwapFeeCollectorAddress) && addr(order.Orderer) != addr(pr.EscrowAddress) && addr(order.Orderer) != addr(pr.SwapFeeCollectorAddress)
+//@   ensures #c07-cancel-all-visits-every-order: result0 == false
